@@ -37,20 +37,54 @@ def derived_impls(F, adt_path):
     return out
 
 
+def check_order_impls(ctx, rule, adt_path, label, field, reversed_, keys=None):
+    """The hand-written Ord / PartialOrd impls of `adt_path` compute exactly the order of the projected payload
+    (`field` of self vs `field` of other), reversed when `reversed_`: every method of the impls - required ones and
+    any overridden comparison operator - is evaluated under the four possible payload relations (ordalg) and its
+    result table compared with the expected one.  Spelling is free; comparing anything but the payloads is not."""
+    from . import ordalg
+    keys = keys or {}
+    is_a = lambda e: match(e, Through(Field(Through(Param(1)), field)))
+    is_b = lambda e: match(e, Through(Field(Through(Param(2)), field)))
+    di = derived_impls(ctx.F, adt_path)
+    n = 0
+    for tr, required in (("std::cmp::Ord", "cmp"), ("std::cmp::PartialOrd", "partial_cmp")):
+        ims = di.get(tr, [])
+        if len(ims) != 1:
+            ctx.bad(rule, "%s/%s-single-impl" % (label, tr.split("::")[-1]), "%d impls of %s for %s" % (len(ims), tr, adt_path))
+            continue
+        if ims[0]["derived"]:
+            ctx.bad(rule, "%s/%s-hand-written" % (label, tr.split("::")[-1]), "%s for %s is derived: a derive orders by ALL fields in declaration order, not by `%s`%s" % (
+                tr, adt_path, field, " reversed" if reversed_ else ""), ims[0]["span"]["at"])
+            continue
+        names = [it["name"] for it in ims[0]["items"] if it["kind"] == "AssocFn"]
+        ctx.check(required in names, rule, "%s/%s-defined" % (label, required), "methods defined: %s" % names, ims[0]["span"]["at"])
+        for it in ims[0]["items"]:
+            if it["kind"] != "AssocFn":
+                continue
+            m = it["name"]
+            key = keys.get(m) or "%s::%s-agrees-with-payload-order" % (label, m)
+            f = ctx.F.fns.get(it["path"])
+            if f is None:
+                ctx.bad(rule, key, "no MIR for %s" % it["path"])
+                continue
+            exp = ordalg.expected(m, reversed_)
+            if not exp:
+                ctx.bad(rule, key, "%s overrides %s::%s, which this rule cannot evaluate (only cmp, partial_cmp, lt, le, gt, ge are modelled)" % (adt_path, tr, m), f.at())
+                continue
+            ps = [p for p in ctx.paths(f)]
+            got = ordalg.table(ps, is_a, is_b, rels=tuple(exp))
+            wrong = ["payloads %s: returns %s, must return %s" % ({"lt": "self < other", "eq": "self == other", "gt": "self > other", "none": "incomparable"}[r],
+                                                                   ordalg.show(got[r]), ordalg.show(exp[r])) for r in exp if got[r] != exp[r]]
+            n += 1
+            ctx.check(not wrong, rule, key, "; ".join("%s=>%s" % (r, ordalg.show(got[r])) for r in exp), f.at(),
+                      bad_detail="%s::%s does not order by `%s`%s: %s" % (label, m, field, " (reversed)" if reversed_ else "", "; ".join(wrong)))
+    return n
+
+
 def check_error_ord(ctx, rule):
-    f = ctx.fn("<ec_core::test_results::Error<T> as std::cmp::Ord>::cmp")
-    ps = return_paths(ctx.paths(f))
-    pat = Call("Ordering::reverse", Call("Ord::cmp", Through(Field(Through(Param(1)), 0)), Through(Field(Through(Param(2)), 0)), nargs=2), nargs=1)
-    ok = len(ps) == 1 and match(ps[0].ret, pat) and sum(1 for c in ps[0].calls() if callee_is(c, "Ordering::reverse")) == 1
-    ctx.check(ok, rule, "Error::cmp=reverse(self.0.cmp(other.0))", short(ps[0].ret) if ps else "-", f.at(),
-              bad_detail="expected Ordering::reverse(Ord::cmp(&self.0, &other.0)), extracted " + "; ".join(short(p.ret, 8) for p in ps))
-    f = ctx.fn("<ec_core::test_results::Error<T> as std::cmp::PartialOrd>::partial_cmp")
-    ps = return_paths(ctx.paths(f))
-    rev = lambda e: e[0] == "fnitem" and path_ends(e[1], "Ordering::reverse")
-    pat = Call("Option::map", Call("PartialOrd::partial_cmp", Through(Field(Through(Param(1)), 0)), Through(Field(Through(Param(2)), 0)), nargs=2), rev, nargs=2)
-    ok = len(ps) == 1 and match(ps[0].ret, pat)
-    ctx.check(ok, rule, "Error::partial_cmp=partial_cmp.map(reverse)", short(ps[0].ret) if ps else "-", f.at(),
-              bad_detail="expected Option::map(PartialOrd::partial_cmp(&self.0, &other.0), Ordering::reverse), extracted " + "; ".join(short(p.ret, 8) for p in ps))
+    check_order_impls(ctx, rule, TR + "Error", "Error", 0, True,
+                      keys={"cmp": "Error::cmp=reverse(self.0.cmp(other.0))", "partial_cmp": "Error::partial_cmp=partial_cmp.map(reverse)"})
 
 
 def check(ctx):
@@ -75,9 +109,6 @@ def check(ctx):
     for tr in ("std::cmp::PartialEq", "std::cmp::Eq"):
         ims = di.get(tr, [])
         ctx.check(len(ims) == 1 and ims[0]["derived"], "R15.2", "Error/%s-derived" % tr.split("::")[-1], "%d impl(s)" % len(ims))
-    for tr in ("std::cmp::PartialOrd", "std::cmp::Ord"):
-        ims = di.get(tr, [])
-        ctx.check(len(ims) == 1 and not ims[0]["derived"], "R15.2", "Error/%s-single-manual-impl" % tr.split("::")[-1], "%d impl(s)" % len(ims))
 
     # ---- R15.3 TestResult ---------------------------------------------------
     f = ctx.fn("<ec_core::test_results::TestResult<S, E> as std::cmp::PartialOrd>::partial_cmp")
@@ -102,12 +133,8 @@ def check(ctx):
     ctx.floor("R15.3", len(ps) - like, 2, "mixed-variant arms")
 
     # ---- R15.4 TestResults -----------------------------------------------------
-    for tr, m, callee in (("std::cmp::Ord", "cmp", "Ord::cmp"), ("std::cmp::PartialOrd", "partial_cmp", "PartialOrd::partial_cmp")):
-        f = ctx.fn("<ec_core::test_results::TestResults<R> as %s>::%s" % (tr, m))
-        ps = return_paths(ctx.paths(f))
-        pat = Call(callee, Through(Field(Through(Param(1)), "total_result")), Through(Field(Through(Param(2)), "total_result")), nargs=2)
-        ctx.check(len(ps) == 1 and match(ps[0].ret, pat) and len(ps[0].calls()) == 1, "R15.4", "TestResults/%s-by-total" % m, short(ps[0].ret), f.at(),
-                  bad_detail="expected %s(&self.total_result, &other.total_result); extracted %s" % (callee, "; ".join(short(p.ret, 8) for p in ps)))
+    check_order_impls(ctx, "R15.4", TR + "TestResults", "TestResults", "total_result", False,
+                      keys={"cmp": "TestResults/cmp-by-total", "partial_cmp": "TestResults/partial_cmp-by-total"})
     f = ctx.fn("<ec_core::test_results::TestResults<R> as std::convert::From<I>>::from")
     ps = return_paths(ctx.paths(f))
     into = lambda e: e[0] == "fnitem" and path_ends(e[1], "Into::into") or (e[0] == "fnitem" and path_ends(e[1], "From::from"))
@@ -154,12 +181,8 @@ def check(ctx):
         ps = return_paths(ctx.paths(g))
         ctx.check(len(ps) == 1 and match(ps[0].ret, Agg("%s::%s" % (ty, ty), Param(1))) and not ps[0].calls(), "R15.4", "%s::from-wraps-the-value" % ty, short(ps[0].ret) if ps else "-", g.at())
     # ---- R15.5 EcIndividual -------------------------------------------------------
-    for tr, m, callee in (("std::cmp::Ord", "cmp", "Ord::cmp"), ("std::cmp::PartialOrd", "partial_cmp", "PartialOrd::partial_cmp")):
-        f = ctx.fn("<ec_core::individual::ec::EcIndividual<G, R> as %s>::%s" % (tr, m))
-        ps = return_paths(ctx.paths(f))
-        pat = Call(callee, Through(Field(Through(Param(1)), "test_results")), Through(Field(Through(Param(2)), "test_results")), nargs=2)
-        ctx.check(len(ps) == 1 and match(ps[0].ret, pat) and len(ps[0].calls()) == 1, "R15.5", "EcIndividual/%s-by-test_results" % m, short(ps[0].ret), f.at(),
-                  bad_detail="expected %s(&self.test_results, &other.test_results); extracted %s" % (callee, "; ".join(short(p.ret, 8) for p in ps)))
+    check_order_impls(ctx, "R15.5", "ec_core::individual::ec::EcIndividual", "EcIndividual", "test_results", False,
+                      keys={"cmp": "EcIndividual/cmp-by-test_results", "partial_cmp": "EcIndividual/partial_cmp-by-test_results"})
     f = ctx.fn("ec_core::individual::ec::EcIndividual::<G, R>::new")
     ps = return_paths(ctx.paths(f))
     ctx.check(len(ps) == 1 and match(ps[0].ret, Agg("EcIndividual::EcIndividual", Param(1), Param(2))) and field_names(F, "ec_core::individual::ec::EcIndividual") == ["genome", "test_results"],
